@@ -509,6 +509,18 @@ func (b *broker) syncUnsubscribe(subscriber *wamp.Session, msg *wamp.Unsubscribe
 		return
 	}
 
+	// Only a session that holds the subscription can unsubscribe from it.
+	if _, ok = sub.subscribers[subscriber]; !ok {
+		b.trySend(subscriber, &wamp.Error{
+			Type:    msg.MessageType(),
+			Request: msg.Request,
+			Error:   wamp.ErrNoSuchSubscription,
+			Details: wamp.Dict{},
+		})
+		b.log.Println("Error unsubscribing: no such subscription for sender:", subID)
+		return
+	}
+
 	// Remove subscribed session from subscription.
 	delete(sub.subscribers, subscriber)
 
